@@ -162,6 +162,7 @@ type c18Subject struct {
 	ev     *psatoken.Evidence
 	keys   []keyPair
 	sparse bool // empty component container / optional claims absent
+	reps   int  // how often each call is repeated (default 2)
 }
 
 func drawC18Subject(t *rapid.T) c18Subject {
@@ -173,7 +174,7 @@ func drawC18Subject(t *rapid.T) c18Subject {
 		m = GenAny(t, p)
 	}
 	sparse := len(m.Comps) == 0 || m.CertRef == nil || m.VSI == nil || (p == P2 && m.BootSeed == nil) || (p == P1 && m.Profile == nil)
-	kind := rapid.SampledFrom([]string{"literal", "decoded-cbor", "decoded-json", "setters", "evidence-decoded", "evidence-signed", "extension", "extension-ptr-embedded", "extension-p1-ptr-receiver"}).Draw(t, "subject")
+	kind := rapid.SampledFrom([]string{"literal", "decoded-cbor", "decoded-json", "setters", "evidence-decoded", "evidence-signed", "extension", "extension-ptr-embedded", "extension-p1-ptr-receiver", "long-component-list"}).Draw(t, "subject")
 	if p == P2 && (kind == "literal" || kind == "decoded-cbor") && rapid.IntRange(0, 5).Draw(t, "samenonces") == 0 {
 		// a nonce array whose entries are all the same value
 		n := drawBytes(t, drawHashLen(t, "samenonce.len"), "samenonce")
@@ -184,6 +185,47 @@ func drawC18Subject(t *rapid.T) c18Subject {
 		m.Nonces = &ns
 	}
 	switch kind {
+	case "long-component-list":
+		// a composite device: 8..24 components, of which some (usually two
+		// or more, broken in DIFFERENT ways) do not validate - reachable by
+		// a non-validating decode or a struct literal. Which entry the
+		// error names, and why, is the same every time one asks.
+		m = GenValid(t, p, false)
+		m.NoMeas, m.CompsNil = nil, false
+		n := rapid.IntRange(8, 24).Draw(t, "long.n")
+		comps := make([]*MComp, n)
+		for i := range comps {
+			comps[i] = drawComp(t, true, fmt.Sprintf("long.c%d", i))
+		}
+		for k := rapid.IntRange(0, 4).Draw(t, "long.bad"); k > 0; k-- {
+			i := rapid.IntRange(0, n-1).Draw(t, "long.badidx")
+			switch rapid.IntRange(0, 3).Draw(t, "long.badkind") {
+			case 0:
+				comps[i] = &MComp{NilEntry: true}
+			case 1:
+				comps[i] = &MComp{Signer: bp(drawBytes(t, 32, "long.signer"))} // no measurement value
+			case 2:
+				comps[i] = &MComp{Value: bp(drawBytes(t, 7, "long.short")), Signer: bp(drawBytes(t, 32, "long.signer"))}
+			default:
+				comps[i] = drawComp(t, false, "long.badcomp")
+			}
+		}
+		m.Comps = comps
+		var c psatoken.IClaims
+		if genBool.Draw(t, "long.decoded") {
+			if d, err := psatoken.DecodeClaimsFromCBOR(m.WireBytes()); err == nil {
+				c = d
+			}
+		}
+		if c == nil {
+			lit, ok := m.BuildLiteral()
+			if !ok {
+				m.Profile = sp(p.Name())
+				lit, _ = m.BuildLiteral()
+			}
+			c = lit
+		}
+		return c18Subject{desc: kind, claims: c, sparse: true, reps: 6}
 	case "extension-p1-ptr-receiver":
 		// a profile-1 derived extension with pointer-receiver codec methods;
 		// in the no-measurements form the (empty) component container may
@@ -353,8 +395,8 @@ func drawC18Subject(t *rapid.T) c18Subject {
 }
 
 func TestC18_ReadOnly(t *testing.T) {
-	st := NewStats("C18", "TestC18_ReadOnly", "rapid: a subject (claims-set of either profile as struct literal / via setters / decoded from CBOR with permuted and extra keys / decoded from JSON / an extension-profile instance; valid or with rule deviations; or an Evidence, decoded or freshly signed) and a random sequence of 1..30 read-side calls {Validate, each of the 10 getters, all getters, Encode CBOR/JSON, validate-and-encode CBOR/JSON, component-container Validate/Values/IsEmpty, Evidence.MarshalJSON / GetInstanceID / GetImplementationID / Verify with right, wrong, other-algorithm and nil key}. Oracle: the reflect-based deep fingerprint of everything a caller can reach (exported fields, pointers, slices, the component container) is identical before and after every call; every call repeated immediately returns the identical result; Observe (all getters + validity + both encodings) is identical at the end; Verify outcomes are stable; byte slices returned by earlier encode calls keep their content while other claims-sets are encoded in between. Non-trivial = sequence contains an encode or validate call on a set with an empty component container or an absent optional claim; distinct = subject kind + class of subject + op sequence")
-	st.Require = []string{"literal", "decoded-cbor", "decoded-json", "setters", "evidence-decoded", "evidence-signed", "extension", "extension-ptr-embedded", "extension-p1-ptr-receiver", "sparse"}
+	st := NewStats("C18", "TestC18_ReadOnly", "rapid: a subject (claims-set of either profile as struct literal / via setters / decoded from CBOR with permuted and extra keys / decoded from JSON / an extension-profile instance; a claims-set with 8..24 software components of which up to four are broken in different ways; valid or with rule deviations; or an Evidence, decoded or freshly signed) and a random sequence of 1..30 read-side calls {Validate, each of the 10 getters, all getters, Encode CBOR/JSON, validate-and-encode CBOR/JSON, component-container Validate/Values/IsEmpty, Evidence.MarshalJSON / GetInstanceID / GetImplementationID / Verify with right, wrong, other-algorithm and nil key}. Oracle: the reflect-based deep fingerprint of everything a caller can reach (exported fields, pointers, slices, the component container) is identical before and after every call; every call repeated immediately returns the identical result; Observe (all getters + validity + both encodings) is identical at the end; Verify outcomes are stable; byte slices returned by earlier encode calls keep their content while other claims-sets are encoded in between. Non-trivial = sequence contains an encode or validate call on a set with an empty component container or an absent optional claim; distinct = subject kind + class of subject + op sequence")
+	st.Require = []string{"literal", "decoded-cbor", "decoded-json", "setters", "evidence-decoded", "evidence-signed", "extension", "extension-ptr-embedded", "extension-p1-ptr-receiver", "long-component-list", "sparse"}
 	defer st.Flush(t)
 	withExtProfiles(func() {
 		rapid.Check(t, func(t *rapid.T) {
@@ -447,9 +489,10 @@ func TestC18_ReadOnly(t *testing.T) {
 						t.Fatalf("C18 violated (%s): %s = %s, expected %s (token signed with %s); the outcome depends on earlier calls\n  sequence: %v", s.desc, op.name, r1, want, s.signer.Name(), seq)
 					}
 				}
-				r2 := op.run()
-				if r1 != r2 {
-					t.Fatalf("C18 violated (%s): %s is not repeatable: %s then %s\n  sequence: %v", s.desc, op.name, truncate(r1, 300), truncate(r2, 300), seq)
+				for rep := 1; rep < max(2, s.reps); rep++ {
+					if r2 := op.run(); r1 != r2 {
+						t.Fatalf("C18 violated (%s): %s is not repeatable: %s then (call %d) %s\n  sequence: %v", s.desc, op.name, truncate(r1, 300), rep+1, truncate(r2, 300), seq)
+					}
 				}
 				if s.sparse && (strings.Contains(op.name, "Encode") || strings.Contains(op.name, "Validate") || strings.Contains(op.name, "MarshalJSON")) {
 					nt = true
